@@ -4,29 +4,31 @@
    completions of any outstanding request with any admissible new averages.
    Two observer variables make the pick rule checkable as state invariants:
    out  -- facts about the last step (candidates, who was overdue, loads)
+   bal  -- per connection: picks so far minus requests reported in statistics lines
    skip -- per connection: [n: the number of consecutive picks in which it was an
            overdue candidate and was not chosen, w: the same counting only
            pass-overs at most FP after the previous one, at: instant of the last].  *)
 EXTENDS P2c
 
-CONSTANTS N, T0, MaxNow
+CONSTANTS Ns, T0, MaxNow      \* Ns: the numbers of ready connections to start from
 
-VARIABLES out, skip
-mvars == <<n, now, cs, stamp, toks, out, skip>>
+VARIABLES out, skip, bal
+mvars == <<n, now, cs, stamp, toks, line, out, skip, bal>>
 
 \* a convex combination, the old value itself when no time has passed (w = 1)
 MixSmall(old, sample, td, new) ==
   IF td = 0 THEN new = old ELSE new \in Min(old, sample)..Max(old, sample)
 ISqrtSmall(x) == CHOOSE r \in 0..x : r * r <= x /\ (r + 1) * (r + 1) > x
+RootSmall(l, r) == r = ISqrtSmall(l + 1)
 
 NoSkip == [n |-> 0, w |-> 0, at |-> 0]
 PassedOver(s) == [n |-> Min(s.n + 1, 3),
                   w |-> IF s.n > 0 /\ now - s.at <= FP THEN Min(s.w + 1, 3) ELSE 1,
                   at |-> now]
 
-MInit == PInitWith(N, T0) /\ out = [op |-> "init"] /\ skip = [c \in 1..N |-> NoSkip]
+MInit == \E k \in Ns : PInitWith(k, T0) /\ out = [op |-> "init"] /\ skip = [c \in 1..k |-> NoSkip] /\ bal = [c \in 1..k |-> 0]
 
-MAdvance(d) == now + d <= MaxNow /\ PAdvance(d) /\ out' = [op |-> "adv"] /\ UNCHANGED skip
+MAdvance(d) == now + d <= MaxNow /\ PAdvance(d) /\ out' = [op |-> "adv"] /\ UNCHANGED <<skip, bal>>
 
 MPick(a, b, ch, id) ==
   /\ PPick(a, b, ch, id)
@@ -35,17 +37,18 @@ MPick(a, b, ch, id) ==
              od |-> {c \in {a, b} : Overdue(c)}, lch |-> Load(ch), lo |-> Load(o)]
   /\ skip' = [c \in Conns |-> IF c = ch THEN NoSkip
                               ELSE IF c \in {a, b} /\ Overdue(c) THEN PassedOver(skip[c]) ELSE skip[c]]
+  /\ bal' = [bal EXCEPT ![ch] = @ + 1]
 
-MDone(id, ok, nl, ns) == PDone(id, ok, nl, ns) /\ out' = [op |-> "done"] /\ UNCHANGED skip
+MDone(id, ok, nl, nr, ns) ==
+  /\ PDone(id, ok, nl, nr, ns) /\ out' = [op |-> "done"] /\ UNCHANGED skip
+  /\ bal' = IF line' = <<>> THEN bal ELSE [c \in Conns |-> bal[c] - line'[c][2]]
 
 MNext ==
   \/ \E d \in Advs : MAdvance(d)
-  \/ PPickNone /\ out' = [op |-> "none"] /\ UNCHANGED skip
+  \/ PPickNone /\ out' = [op |-> "none"] /\ UNCHANGED <<skip, bal>>
   \/ \E id \in TokIds, ch \in Conns :
-       \/ n \in {1, 2} /\ \E a \in Conns, b \in Conns : MPick(a, b, ch, id)
-       \/ n >= 3 /\ \E ds \in Seqs({<<a, b>> : a \in Conns, b \in Conns}, PickTimes) :
-                      DrawsOK(ds) /\ MPick(ds[Len(ds)][1], ds[Len(ds)][2], ch, id)
-  \/ \E id \in TokIds, ok \in BOOLEAN, nl \in LagVals, ns \in 0..InitSucc : MDone(id, ok, nl, ns)
+       \E a \in Conns, b \in Conns : MPick(a, b, ch, id)
+  \/ \E id \in TokIds, ok \in BOOLEAN, nl \in LagVals, nr \in RootVals, ns \in 0..InitSucc : MDone(id, ok, nl, nr, ns)
 
 MSpec == MInit /\ [][MNext]_mvars
 
@@ -66,6 +69,11 @@ NoStarveWindow == n = 2 => \A c \in Conns : skip[c].w <= 1
 \* that the code then returns the MORE loaded connection every time)
 NoStarveEver   == n = 2 => \A c \in Conns : skip[c].n <= 1
 
-\* the request counter does not influence anything else: hidden from the state space
-MView == <<n, now, [c \in Conns |-> [cs[c] EXCEPT !.req = 0]], stamp, toks, out, skip>>
+\* every pick is reported in exactly one statistics line: the counter is what was picked and not yet reported
+ReqConservation == \A c \in Conns : cs[c].req = bal[c]
+\* a statistics line reports the load as of the completion that wrote it
+LineLoads == line # <<>> => \A c \in Conns : line[c][1] = Load(c) /\ line[c][2] >= 0
+
+\* the request counter does not influence anything else: hidden from the state space (with its observer)
+MView == <<n, now, [c \in Conns |-> [cs[c] EXCEPT !.req = 0]], stamp, toks, line # <<>>, out, skip>>
 =============================================================================
